@@ -251,13 +251,15 @@ class C11(Property):
                     if isinstance(f, ast.FunctionDef) and f.name == '_cull':
                         for c in ast.walk(f):
                             # len(<x>) > <int literal>
-                            if isinstance(c, ast.Compare) and len(c.ops) == 1 and isinstance(c.ops[0], ast.Gt) \
+                            if isinstance(c, ast.Compare) and len(c.ops) == 1 and isinstance(c.ops[0], (ast.Gt, ast.GtE)) \
                                     and isinstance(c.left, ast.Call) and getattr(c.left.func, 'id', None) == 'len' \
                                     and isinstance(c.comparators[0], ast.Constant) \
-                                    and isinstance(c.comparators[0].value, int):
+                                    and isinstance(c.comparators[0].value, int) \
+                                    and not isinstance(c.comparators[0].value, bool):
                                 if limit is not None:
                                     raise ValueError('several interval-count tests in _cull')
-                                limit = c.comparators[0].value
+                                # `len(ded) >= k` is `len(ded) > k - 1`
+                                limit = c.comparators[0].value - (1 if isinstance(c.ops[0], ast.GtE) else 0)
         if not (isinstance(factor, int) and not isinstance(factor, bool) and factor >= 1):
             raise ValueError('_COMPACTION_FACTOR is not a positive int literal: %r' % (factor,))
         if not (isinstance(limit, int) and not isinstance(limit, bool) and limit >= 0):
@@ -294,11 +296,11 @@ class C11(Property):
             yield c
         for c in self.exhaustive(4 if self.thorough else 3):
             yield c
-        n_rand = 60000 if self.thorough else 3200
+        n_rand = 220000 if self.thorough else 12000
         for i in range(n_rand):
             r = i % 10
             yield self.random_case(rng, 'small' if r < 4 else 'mid' if r < 8 else 'large')
-        for c in self.adversarial(rng, 400 if self.thorough else 30, big=6 if self.thorough else 0):
+        for c in self.adversarial(rng, 600 if self.thorough else 60, big=8 if self.thorough else 1):
             yield c
 
     def deep_cases(self, budget_s):
@@ -532,8 +534,17 @@ class C11(Property):
                     ops.append(['index', n0 - 2])
                     ops.append(['slice', 2 * need - 5, 2 * need + 5, 2])
             ops.append(['iter'])
+            # the tail right after the limit was crossed: trimming, pop(), appending, translation
+            ops.append(['remove', n0 - 1])
+            ops.append(['pop'])
+            ops.append(['add', n0])
+            ops.append(['get', -1])
+            ops.append(['index', n0])
             ops.append(['popi', 5])
             ops.append(['get', 5])
+            ops.append(['popi', -2])
+            ops.append(['pop'])
+            ops.append(['len'])
             ops.append(['rev'])
             yield {'n0': n0, 'cf': None, 'nk': n0 + 1, 'alias': 0, 'ops': ops}
 
